@@ -1,6 +1,9 @@
 use core::fmt::Debug;
 use std::cell::Ref;
+#[cfg(not(cormacrelf_incremental_rs_verif))]
 use std::collections::HashMap;
+#[cfg(cormacrelf_incremental_rs_verif)]
+use crate::verif::HashMap;
 use std::fmt::{self, Write};
 use std::ops::ControlFlow;
 use std::rc::Weak;
